@@ -164,6 +164,10 @@ def run(ctx: Ctx):
     from . import tracking_manager
 
     ctx.extra["manager_tracking_traces"] = tracking_manager.run(ctx, renderings=("base_link",), n=40 if ctx.quick else 300)
+    # the MetricsScore object itself: families per task, one score per threshold row, ground-truth count added exactly once (frame and scene level)
+    from . import metrics_shape
+
+    metrics_shape.run(ctx)
     ctx.exhaustive = True
     ctx.rule = (
         "TLC explores every sequence of up to 2 (quick) / 3 (thorough) add_frame_result calls over two worlds (2 ground-truth frames x 3 estimate "
